@@ -1963,15 +1963,15 @@ impl Server {
             _ => return Ok(RespFrame::error("ERR invalid key format")),
         };
         
-        let mut new_members = 0;
-        
-        // Process each score-member pair
+        // Validate every score-member pair before touching the set,
+        // so that a refused command adds nothing
+        let mut pairs = Vec::with_capacity((parts.len() - 2) / 2);
         for i in (2..parts.len()).step_by(2) {
             let score = match &parts[i] {
                 RespFrame::BulkString(Some(bytes)) => {
                     match String::from_utf8_lossy(bytes).parse::<f64>() {
-                        Ok(n) => n,
-                        Err(_) => return Ok(RespFrame::error("ERR value is not a valid float")),
+                        Ok(n) if !n.is_nan() => n,
+                        _ => return Ok(RespFrame::error("ERR value is not a valid float")),
                     }
                 }
                 _ => return Ok(RespFrame::error("ERR invalid score format")),
@@ -1982,7 +1982,11 @@ impl Server {
                 _ => return Ok(RespFrame::error("ERR invalid member format")),
             };
             
-            // Add to sorted set 
+            pairs.push((member, score));
+        }
+        
+        let mut new_members = 0;
+        for (member, score) in pairs {
             if self.storage.zadd(db, key.clone(), member, score)? {
                 new_members += 1;
             }
